@@ -2,7 +2,7 @@
 
 use crate::rng::Rng;
 
-pub const CLASS_NAMES: [&str; 16] = [
+pub const CLASS_NAMES: [&str; 17] = [
     "zeros",
     "single_run",
     "period_p",
@@ -19,6 +19,7 @@ pub const CLASS_NAMES: [&str; 16] = [
     "runs_mixed",
     "alphabet200",
     "mixed_segments",
+    "lazy_chains",
 ];
 
 pub const NUM_CLASSES: usize = CLASS_NAMES.len();
@@ -128,11 +129,12 @@ pub fn gen(rng: &mut Rng, class: usize, n: usize) -> Vec<u8> {
             v
         }
         14 => (0..n).map(|_| rng.below(200) as u8).collect(),
+        16 => lazy_chains(rng, n),
         _ => {
             let mut v = Vec::with_capacity(n);
             while v.len() < n {
                 let seg = 1 + rng.size_biased(n.min(20000));
-                let c = rng.below(15);
+                let c = if rng.chance(1, 8) { 16 } else { rng.below(15) };
                 let part = gen(rng, c, seg);
                 v.extend_from_slice(&part);
             }
@@ -151,4 +153,39 @@ pub fn repeat_at_distance(rng: &mut Rng, xlen: usize, d: usize, tail: usize) -> 
     v.extend_from_slice(&x);
     v.extend_from_slice(&rng.bytes(tail));
     v
+}
+
+/// Stress input for lazy matching: mostly incompressible bytes in which a match found at position
+/// p is repeatedly beaten by a longer match at p+1 (chains of lazy upgrades). Each round first
+/// lays down a "dictionary" of overlapping, growing snippets of random probe strings (separated
+/// by random bytes), then the probe strings themselves followed by random filler.
+pub fn lazy_chains(rng: &mut Rng, n: usize) -> Vec<u8> {
+    let mut out = Vec::with_capacity(n + 64);
+    while out.len() < n {
+        let pairs = 50 + rng.below(350);
+        let depth = 2 + rng.below(4);
+        let first = 3 + rng.below(3);
+        let grow = 2 + rng.below(2);
+        let filler = rng.below(9);
+        let plen = first + (depth - 1) * (grow + 1) + depth;
+        let mut probes: Vec<Vec<u8>> = Vec::with_capacity(pairs);
+        for _ in 0..pairs {
+            let p: Vec<u8> = (0..plen).map(|_| 1 + (rng.below(255) as u8)).collect();
+            for j in 0..depth {
+                let start = j;
+                let end = (start + first + j * grow).min(plen);
+                out.extend_from_slice(&p[start..end]);
+                out.push(1 + rng.below(255) as u8);
+            }
+            probes.push(p);
+        }
+        for p in &probes {
+            out.extend_from_slice(p);
+            for _ in 0..filler {
+                out.push(1 + rng.below(255) as u8);
+            }
+        }
+    }
+    out.truncate(n);
+    out
 }
